@@ -17,11 +17,14 @@ Tie to /repo on every run (exact, Gaussian-integer data, no tolerance):
     rejected by both sides;
   * fused circuits (`Circuit.fuse`): execution and `FusedGate.matrix` against the model, and
     `Circuit.unitary()` of the fused circuit against the model (Props.unitary_queue_ok) and the spec;
+  * histories on long-lived objects (harness/c01_history.py; model C01/History.v, theorems C01/PropsHistory.v): executions,
+    Circuit.unitary and gate.matrix after parameter updates through aliases, derived objects, input non-mutation;
   * gate tables (harness/c01_tables.py): every gate class's traced matrix equals the documented
     matrix of Spec/GateSpec.v for all parameters, is unitary, and constructor roles are as documented.
 This module also holds the helpers shared with harness/c02.py (density matrices).
 """
-STATIC = ["C01/Props", "C01/Examples", "Spec/GateSpec", "Base/TrigMat", "Base/SemProps", "Base/SemExamples"]
+STATIC = ["C01/Props", "C01/Examples", "C01/PropsHistory", "C01/ExamplesHistory", "Spec/GateSpec", "Base/TrigMat", "Base/SemProps",
+          "Base/SemExamples"]
 import hashlib
 import itertools
 import json
@@ -827,6 +830,8 @@ def main(run):
                         "gate matrix tables (npmatrices.py) are checked by the table obligations, not here",
                         "qulacs is outside the proof", "qubit ids are natural numbers (qibo also accepts negative ids through Python indexing)"]
     oblige_theorems(run, "C01/Props")
+    # histories on long-lived objects: observations are the Spec operator of the CURRENT store (PropsHistory.v)
+    oblige_theorems(run, "C01/PropsHistory")
     # matrix-level facts about embed / cembed proved from the same index lemmas (premises of C05, C07, C09)
     oblige_theorems(run, "Base/SemProps")
     strings_check(run, rng)
@@ -849,11 +854,18 @@ def main(run):
     malformed_check(run, rng)
     fused_check(run, rng)
     declared_check(run, rng)
+    from harness import c01_history
+    c01_history.check(run, random.Random(run.seed * 7919 + 101), "sv")
     from harness import c01_tables
     c01_tables.run_tables(run, rng)
     from harness import c01_qulacs
     c01_qulacs.run_qulacs(run, rng, 40 if run.tier == "quick" else 300)
     return run.finish(level="proof", rule=(
+        "histories (harness/c01_history.py): execute / set_parameters through the circuit, the gate object, a fused / shallow / "
+        "`+` alias / derive (controlled_by with 1..3 controls after an in-place update, dagger, on_qubits, invert, deep copy, fuse "
+        "of fuse) / execute again, every parametrised class + Unitary, trainable True and False, same object twice; exact ones "
+        "inside Coq against circ_mat of a from-scratch rebuild and against the history machine C01/History.v, float ones at "
+        "1e-12 (TEST level); user-supplied arrays must not be modified, returned arrays must not change later; "
         "gate tables: one obligation per gate class of gates.py (traced matrix = documented matrix of Spec/GateSpec.v for all "
         "parameters, unitarity for all parameters, constructor argument roles); qulacs backend against the numpy backend on "
         "generated circuits (test level, tolerance, labelled); declared construction: every class x 1..2 extra controls x "
@@ -869,6 +881,9 @@ def replay(run, data):
     import qibo
     qibo.set_backend("numpy")
     rp = data.get("replay", {})
+    if rp.get("mechanism") == "history":
+        from harness import c01_history
+        return c01_history.replay(run, data)
     if rp.get("mechanism") == "declared":
         return declared_replay(run, data)
     if rp.get("mechanism") == "fused" or data.get("key", "").startswith("unitary_skips_fused"):
